@@ -12,6 +12,8 @@ def F(runs):
     return {"k": "f", "v": runs}
 
 
+RAW1 = S([27, 91, 51, 49, 109, 114, 27, 91, 51, 57, 109])        # ESC[31m r ESC[39m as a plain str
+RAW2 = S([120, 155, 49, 109, 121])                                  # x CSI 1 m y (8-bit introducer)
 NEWPOOL_Q = [S([]), S([120]), S([120, 121]), F([]), F([[[], [0] * 8]]), F([[[120], fmtlib.RED]]),
              F([[[120], fmtlib.RED], [[121, 122], fmtlib.BOLD_ON_BLUE]]), F([[[], fmtlib.RED], [[120], fmtlib.PLAIN]])]
 
@@ -48,6 +50,15 @@ class C09(PureCheck):
                 for s in range(0, n + 3):
                     yield {"op": "splice", "f": f, "new": new, "s": s, "e": 0, "en": 1}
                     for e in range(s, n + 3):
+                        yield {"op": "splice", "f": f, "new": new, "s": s, "e": e, "en": 0}
+                yield {"op": "append", "f": f, "new": new}
+        # new values given as plain strs that carry SGR sequences (splice / append parse them)
+        for f in pool[::9]:
+            n = vlen(f)
+            for new in (RAW1, RAW2):
+                for s in range(0, n + 2):
+                    yield {"op": "splice", "f": f, "new": new, "s": s, "e": 0, "en": 1}
+                    for e in range(s, n + 2):
                         yield {"op": "splice", "f": f, "new": new, "s": s, "e": e, "en": 0}
                 yield {"op": "append", "f": f, "new": new}
         # values with many runs (a long syntax-highlighted line): splices at the start, around a middle boundary, at the end
